@@ -64,18 +64,22 @@ def r49t(F):
     sites = _creation_sites(F, fn)
     need(sites, "no file creation reachable from Builtins::out")
     for b, hf, hb in sites:
-        c = callee(hf.term(hb))
-        if c in ("std::fs::File::create", "std::fs::File::create_new", "std::fs::write"):
-            ok, why = True, "%s truncates" % c.split("::")[-1]
-        else:
-            tr = [(x, t) for x, t in hf.calls() if callee(t) in ("std::fs::OpenOptions::truncate", "std::fs::OpenOptions::create_new")
-                  and len(t["args"]) == 2 and t["args"][1].get("int") == "1" and cfg.dominates(hf, x, hb)]
-            ap = [(x, t) for x, t in hf.calls() if callee(t) == "std::fs::OpenOptions::append" and t["args"][1].get("int") == "1"]
-            ok = bool(tr) and not ap
-            why = "OpenOptions with truncate(true)" if ok else \
-                "the artifact is opened with OpenOptions without truncate(true): rebuilding after the output shrank leaves the old tail in the file"
+        ok, why = opens_truncating(hf, hb, "the artifact", "rebuilding after the output shrank")
         r.inst("Builtins::out:open", hf.where(hb), ok, why)
     return r
+
+
+def opens_truncating(hf, hb, what="the file", when="writing a shorter text"):
+    """the creator call in block hb of hf empties an existing file: File::create / fs::write, or OpenOptions with truncate(true)"""
+    c = callee(hf.term(hb))
+    if c in ("std::fs::File::create", "std::fs::File::create_new", "std::fs::write"):
+        return True, "%s truncates" % c.split("::")[-1]
+    tr = [(x, t) for x, t in hf.calls() if callee(t) in ("std::fs::OpenOptions::truncate", "std::fs::OpenOptions::create_new")
+          and len(t["args"]) == 2 and t["args"][1].get("int") == "1" and cfg.dominates(hf, x, hb)]
+    ap = [(x, t) for x, t in hf.calls() if callee(t) == "std::fs::OpenOptions::append" and t["args"][1].get("int") == "1"]
+    ok = bool(tr) and not ap
+    return ok, ("OpenOptions with truncate(true)" if ok else
+                "%s is opened with OpenOptions without truncate(true): %s leaves the old tail in the file" % (what, when))
 
 
 def r49(F):
